@@ -6,6 +6,10 @@ import json, os
 root = os.path.dirname(os.path.dirname(os.path.abspath(__file__)))
 table = json.load(open(os.path.join(root, "tools", "manifest_table.json")))
 props = [json.loads(l) for l in open(os.path.join(root, "properties.jsonl"))]
+# per-property entries may also live in tools/table/<ID>.json ({"technique","level_text","level_note"[,"engine"]})
+import glob
+for f in sorted(glob.glob(os.path.join(root, "tools", "table", "*.json"))):
+    table["checks"][os.path.splitext(os.path.basename(f))[0]] = json.load(open(f))
 checks, na = [], []
 for p in props:
     pid = p["id"]
